@@ -117,7 +117,9 @@ def run(ctx):
     for t in range(30 if quick else 300):
         # cycles against cliques / stars / paths: pairs whose bracket is often not tight (lower < exact), where a swapped matrix entry shows
         gs = [(lambda n, st: (n, mgh.rand_connected(rng, n, st)))(rng.randint(2, 7), rng.choice(["cycle", "cycle", "clique", "star", "path", "lollipop", "sparse"])) for _ in range(rng.randint(2, 4))]
-        jobs.append(dict(call="collection", graphs=[dict(n=g[0], edges=g[1], repr=mgh.CANON) for g in gs], seed=t, order=orders[t % 4]))
+        # (every second collection as symmetric dense float64 arrays -- what networkx.to_numpy_array gives -- each converted once per pair it is in)
+        rep = [mgh.CANON, {"kind": "dense", "dtype": "float64", "sym": True}, {"kind": "list", "sym": True}, {"kind": "dense", "dtype": "float64", "sym": True}][t % 4]
+        jobs.append(dict(call="collection", graphs=[dict(n=g[0], edges=g[1], repr=rep) for g in gs], seed=t, order=orders[t % 4]))
         gl.append(gs)
     res, _ = run_driver_parallel("mgh.py", jobs, nproc=8)
     ccases, cmeta = [], []
